@@ -20,6 +20,7 @@ SUT_WEIGHTS = [
     ("OrdinalDiscretizer", 4),
     ("StringDiscretizer", 4),
     ("BaseDiscretizer", 9),
+    ("ChainedDiscretizer", 5),
 ]
 ALLOWED_KINDS = {
     "BinaryCarver": ("quant", "cat", "ord"),
@@ -33,6 +34,7 @@ ALLOWED_KINDS = {
     "OrdinalDiscretizer": ("ord",),
     "StringDiscretizer": ("cat_num",),
     "BaseDiscretizer": ("quant", "cat", "ord"),
+    "ChainedDiscretizer": ("cat_str",),
 }
 TARGET_OF = {
     "BinaryCarver": "binary",
@@ -286,9 +288,81 @@ def _target(rng, kind, latents, n, tspec):
     return ys
 
 
+def _chained_world(rng, tier, min_features, max_features):
+    """A world for ChainedDiscretizer: features drawn from the leaves of a random hierarchy (2-3 levels,
+    uneven fan-out, possibly never-observed members), optional unknown values."""
+    n = int(round(math.exp(rng.uniform(math.log(30), math.log(300 if tier == "quick" else 400)))))
+    n_leaves = rng.randint(3, 9)
+    leaves = [f"v{i}" for i in range(n_leaves)]
+    levels = []
+    current = list(leaves)
+    prefix = ["G", "H", "K"]
+    for depth in range(rng.choice([1, 2, 2, 3])):
+        if len(current) < 2:
+            break
+        groups, rest, k = [], list(current), 0
+        while rest:
+            size = min(len(rest), rng.choice([1, 2, 2, 3, 4]))
+            members, rest = rest[:size], rest[size:]
+            name = f"{prefix[depth]}{k}"
+            k += 1
+            groups.append([name, members + [name]])
+        levels.append(groups)
+        current = [g[0] for g in groups]
+    observed = list(leaves)
+    if rng.random() < 0.4 and len(observed) > 2:
+        observed.remove(rng.choice(observed))  # a never-observed member
+    unknown_handling = rng.choice(["raise", "raise", "drop"])
+    n_feat = rng.randint(min_features, max(min_features, min(max_features or 3, 3)))
+    feats, lats = [], []
+    for j in range(n_feat):
+        weights = _zipf_weights(len(observed), rng)
+        rng.shuffle(weights)
+        vals, lat = [], []
+        unknowns = []
+        if unknown_handling == "drop" and rng.random() < 0.6:
+            unknowns = rng.sample(["zz_unknown", "other_unknown"], rng.choice([1, 1, 2]))
+        for _ in range(n):
+            if unknowns and rng.random() < 0.06:
+                vals.append(rng.choice(unknowns))
+                lat.append(0.5)
+                continue
+            i = _windex(rng, weights)
+            vals.append(observed[i])
+            lat.append(leaves.index(observed[i]) / max(1, len(leaves) - 1))
+        vals = _apply_nan(rng, vals, rng.choice([0.0, 0.0, 0.05, 0.2]))
+        feats.append({"name": f"c{j}", "kind": "cat", "sub": "chained", "values": vals})
+        lats.append(lat)
+    target_kind = rng.choice(["binary", "continuous"])
+    tspec = {"noise": 0.3, "slope": rng.choice([0.0, 2.0]), "bias": 0.0, "round": None, "classes": [0, 1, 2]}
+    ys = _target(rng, target_kind, lats, n, tspec)
+    index_kind = rng.choice(["range", "range", "offset", "shuffled", "str"])
+    world = {
+        "n": n,
+        "index": _make_index(rng, n, index_kind),
+        "features": feats,
+        "target": target_kind,
+        "y": ys,
+        "dev": None,
+        "sut": {
+            "class": "ChainedDiscretizer",
+            "params": {
+                "min_freq": rng.choice([0.08, 0.1, 0.15, 0.2, 0.33]),
+                "copy": rng.random() < 0.6,
+                "n_jobs": rng.choice([1, 1, 2, 3]),
+                "chained_orders": levels,
+                "unknown_handling": unknown_handling,
+            },
+        },
+    }
+    return world
+
+
 def generate_world(rng, tier="quick", force_class=None, min_features=1, max_features=None, want_dev=None):
     """Draws one literal world."""
     sut_class = force_class or weighted(rng, SUT_WEIGHTS)
+    if sut_class == "ChainedDiscretizer":
+        return _chained_world(rng, tier, min_features, max_features)
     n = int(round(math.exp(rng.uniform(math.log(30), math.log(300 if tier == "quick" else 400)))))
     if rng.random() < 0.08:
         n = rng.randint(12, 30)
@@ -606,6 +680,18 @@ def build_sut(world, listing_perm=None, overrides=None, only=None):
         )
     if cls == "StringDiscretizer":
         return StringDiscretizer(qualitative_features=cat, **common)
+    if cls == "ChainedDiscretizer":
+        from AutoCarver.discretizers import ChainedDiscretizer  # pylint: disable=C0415
+
+        return ChainedDiscretizer(
+            qualitative_features=cat,
+            min_freq=params["min_freq"],
+            chained_orders=[
+                {name: list(members) for name, members in level} for level in params["chained_orders"]
+            ],
+            unknown_handling=params["unknown_handling"],
+            **common,
+        )
     if cls == "BaseDiscretizer":
         from AutoCarver.discretizers import BaseDiscretizer, GroupedList  # pylint: disable=C0415
 
